@@ -285,6 +285,31 @@ theorem flattenSubarray_offsets (el b : Nat) (dimlen s c k : List Nat)
       = (PnVerif.Access.enumIdx s c k).map (PnVerif.Access.elemOff (PnVerif.IntraNode.arr el b dimlen)) :=
   PnVerif.IntraNode.flattenSubarray_offsets el b dimlen s c k h1 h2 h3 hel hpos
 
+/-- **flattenReqs_offsets** (nonblocking path): flatten_reqs turns the pending put requests of one
+    rank — any number, fixed-size and record variables of any rank mixed, each non-lead request of a
+    record variable within one record — into pairs that expand to exactly the elements of the
+    requests, request after request in queue order.  The pairs (in this order, followed by the other
+    ranks') are the aggregator's `inputs`, and the packed write buffer is the requests' data in the same
+    order, so with `aggrMerge_preserves` the aggregated nonblocking write moves exactly the byte pairs of
+    the individual requests.  (Seeded change C02-4 — `shape++` dropped for record variables —
+    falsifies it.) -/
+theorem flattenReqs_offsets (qs : List PnVerif.IntraNode.PReq) (h : ∀ q ∈ qs, q.WF) :
+    qs.flatMap (fun q => PnVerif.IntraNode.expandPairs q.v.xsz (PnVerif.IntraNode.flattenOne q))
+      = qs.flatMap (fun q => (PnVerif.Access.enumIdx q.start q.count q.stride).map (PnVerif.Access.elemOff q.v)) :=
+  PnVerif.IntraNode.flattenReqs_offsets' qs h
+
+/-- per request flatten_reqs and flatten_req (blocking path) emit the same pairs -/
+theorem flattenReqs_agrees_with_flattenReq (q : PnVerif.IntraNode.PReq) (h : q.WF) :
+    PnVerif.IntraNode.flattenOne q = PnVerif.IntraNode.flattenReq q.v q.start q.count q.stride :=
+  PnVerif.IntraNode.flattenOne_eq_flattenReq q h
+
+/-- non-vacuity: two pending requests, records 1 and 3 of r[time][3][5] (recsize 100) and a fixed 2×3 -/
+example :
+    let r : PnVerif.Access.VarLay := { begin := 100, xsz := 4, shape := [0, 3, 5], isRec := true, recsize := 100 }
+    let f : PnVerif.Access.VarLay := { begin := 40, xsz := 2, shape := [2, 3], isRec := false, recsize := 0 }
+    PnVerif.IntraNode.flattenReqs [⟨r, [1, 1, 2], [1, 2, 2], [1, 1, 1]⟩, ⟨r, [3, 0, 0], [1, 1, 5], [1, 1, 1]⟩, ⟨f, [0, 1], [2, 2], [1, 1]⟩]
+      = [(228, 8), (248, 8), (400, 20), (42, 4), (48, 4)] := by decide
+
 /-- **aggrMerge_preserves**: for any number of ranks and requests whose (offset, length) pairs are
     pairwise disjoint in the file (positive lengths), the aggregator's single write — sort by offset,
     merge loop, packing of recv_buf into wr_buf, coalescing of file-adjacent pairs — moves exactly the
@@ -384,7 +409,7 @@ def obligations : List String := [
   "f15_accepted", "f15_not_inbounds", "f15_exact_rejects", "checkSCS_iff_counterexample",
   "checkSCS_iff_partial", "checkSCS_c64_eq_exact", "noOvf_of_small",
   "checkSCS_iff_repaired", "checkSCS_repaired_eq_exact", "repaired_no_overflow",
-  "flattenReq_offsets", "flattenSubarray_offsets", "aggrMerge_preserves", "aggr_inputs_meaning", "aggrPack_preserves",
+  "flattenReq_offsets", "flattenSubarray_offsets", "flattenReqs_offsets", "flattenReqs_agrees_with_flattenReq", "aggrMerge_preserves", "aggr_inputs_meaning", "aggrPack_preserves",
   "aggregated_write_footprint", "aggregated_write_inside",
   "accepted_inside", "accepted_inside_record", "rowMajor_inside",
   "zero_length_touches_nothing", "rejected_changes_nothing", "zero_length_put_changes_nothing",
